@@ -58,6 +58,8 @@ def sign_case(L, case, st):
     sig = buf(b"\x77" * 64)
     if how == "sign32":
         ret = L.schnorrsig_sign32(L.ctx, sig, msg, kp, aux)
+    elif how == "sign-alias":
+        ret = L.schnorrsig_sign(L.ctx, sig, msg, kp, aux)          # deprecated alias of sign32
     elif how == "custom-null":
         # extraparams NULL => default nonce function, aux = none
         ret = L.schnorrsig_sign_custom(L.ctx, sig, msg, len(msg), kp, None)
@@ -368,6 +370,7 @@ def main():
         full = cfg in ("prod-san", "prod-verify") or thorough
         ks = keys if full else keys[::5]
         cases = [(d, aux, m, "sign32") for d in ks for aux in auxs for m in msgs32]
+        cases += [(d, aux, m, "sign-alias") for d in ks[:6] for aux in auxs for m in msgs32[:2]]
         lens = list(range(0, 301)) + tail
         kk = [3, N - 3, i32(fill[2]) % N or 1] if full else [3]
         for d in kk:
